@@ -355,6 +355,8 @@ PROPS["C03"] = dict(
             dict(pkg="./storage/raft", entry="VerifC03", bounds="readys=1,maxmessages=0", reach=["readys-handled", "local-snapshot-taken", "end"]),
             dict(pkg="./storage/raft", entry="VerifC03", bounds="readys=2,maxmessages=1,msgtypes=1,destinations=1,maxcommitted=1,maxentries=0,snapshots=0,zerogroup=1,storedsnap=0,peerfails=0", reach=["readys-handled", "local-snapshot-taken", "end"]),
             dict(pkg="./storage", entry="VerifC03Crash", bounds="ops=2", no_native=True, reach=["restarted", "end"]),
+            # three replicas of a real partition over the REAL etcd/raft: a minority crashes at a durable-write boundary and restarts
+            dict(pkg="./storage", entry="VerifC03Cluster", bounds="ops=2,ids=1,crashes=1,maxflush=6,compact=1", unwind=4000, no_native=True, reach=["written", "restarted", "end"]),
         ],
         "thorough": [
             dict(pkg="./storage/raft", entry="VerifC03", bounds="readys=1,maxmessages=1,msgtypes=2", reach=["readys-handled", "end"]),
@@ -362,10 +364,16 @@ PROPS["C03"] = dict(
             dict(pkg="./storage/raft", entry="VerifC03", bounds="readys=1,maxmessages=0,det=0,preempt=1,zerogroup=1,storedsnap=0,peerfails=0", max_seconds=3000, reach=["readys-handled", "end"]),
             dict(pkg="./storage", entry="VerifC03Crash", bounds="ops=3", no_native=True, reach=["restarted", "end"]),
             dict(pkg="./storage", entry="VerifC03Crash", bounds="ops=3,cfg=1,ids=3,snapshots=0", no_native=True, reach=["restarted", "end"]),
+            dict(pkg="./storage", entry="VerifC03Cluster", bounds="ops=2,ids=2,crashes=1,partitions=1,maxflush=8", unwind=4000, no_native=True, max_seconds=5400, reach=["written", "restarted", "end"]),
+            dict(pkg="./storage", entry="VerifC03Cluster", bounds="ops=2,ids=2,crashes=1,maxflush=10,compact=1", unwind=4000, no_native=True, max_seconds=5400, reach=["written", "restarted", "end"]),
+            dict(pkg="./storage", entry="VerifC03Cluster", bounds="ops=2,ids=2,faults=1", unwind=4000, no_native=True, max_seconds=5400, reach=["written", "end"]),
+            dict(pkg="./storage", entry="VerifC03Cluster", bounds="ops=3,ids=1,crashes=1,maxflush=8", unwind=4000, no_native=True, max_seconds=5400, reach=["written", "restarted", "end"]),
         ],
     },
-    outside="the end-to-end statement (acknowledged writes present after a crash at any instant and restart, minority crashes): it needs etcd/raft's replay and Badger's durability, which are not encoded; more than 2 Readys; crash instants inside a WAL call",
-    assumptions=GLUE_ASSUME,
+    outside="more than 3 replicas / 3 writes; more than one crashed replica (a minority of 3), crash instants other than the durable-write boundaries of the crashed replica's store; one partition, one message fault; batch writes in the cluster harness; goroutine schedules other than the deterministic one between harness-driven ticks; Badger's own durability (the API-level model makes a flushed batch durable atomically); more than 2 Readys in the Ready-shape harness",
+    assumptions=GLUE_ASSUME + [
+        "VerifC03Cluster: etcd/raft is NOT stubbed (real SSA interpreted); replicas are real partitions (real index, apply path, proposeAndWaitForCommit, ready loop, badgerWAL over the Badger API model); network, crash points and time as in VerifC05Raft; a write is acknowledged when the caller got nil / already exists / not found, in flight when no answer arrived within the round bound; proposalTimeout is modelled by abandoning a pending sentinel write after 50 ticks",
+    ],
     no_native_replay=True,
 )
 
@@ -405,7 +413,7 @@ PROPS["C05"] = dict(
 
 PROPS["C20"] = dict(
     level="model_checking",
-    technique="bounded symbolic execution of go/ssa (gosmt): real Servers (Server.setup / JoinCluster, NodesManager, the gRPC AddNode handler and client stub, zero-group ready loops, trySnapshot, shared-group snapshot/processSnapshot, badgerWAL) assembled into a 1-3 member cluster over an in-memory transport and a shared committed log; join order, broken handshakes, removals, compaction points and restarts are path decisions (no solver variables: verdict by exhaustive path enumeration of the symbolic executor)",
+    technique="bounded symbolic execution of go/ssa (gosmt): real Servers (Server.setup / JoinCluster, NodesManager, the gRPC AddNode handler and client stub, zero-group ready loops, trySnapshot, shared-group snapshot/processSnapshot, badgerWAL) assembled into a 1-3 member cluster over an in-memory gRPC transport, (a) over the REAL etcd/raft (interpreted; message faults, a leader stop right after an acknowledged join, compaction, restarts as path decisions) and (b) over a shared committed log; join order, broken handshakes, removals, compaction points and restarts are path decisions (no solver variables: verdict by exhaustive path enumeration of the symbolic executor)",
     explanation="reduced claim (DESIGN.md section 5 C20): (a) cluster of up to 3 real Servers: members join one after the other through the real handshake (stream optionally broken after any message, joiner restarted and retried), the last one is optionally removed, the leader optionally compacts after any change, any one member restarts with its original command line or with -join=false; after quiescence every live member of the configuration lists exactly the acknowledged members with the addresses they announced; (b) one member over up to 3 lives on one data directory with joins/removals/compaction in each life; (c) a zero-group snapshot installed on another member teaches it every listed peer and no removed one. What etcd/raft does between proposing and committing (elections, message loss/reordering between raft peers) is not decided: the members' zero groups share one committed log",
     runs={
         "quick": [
@@ -413,6 +421,10 @@ PROPS["C20"] = dict(
             dict(pkg=".", entry="VerifC20Cluster", bounds="members=3", no_native=True, reach=["joined", "restarted", "end"]),
             dict(pkg=".", entry="VerifC20Restart", bounds="lives=2,maxchanges=2", no_native=True, reach=["restarted", "end"]),
             dict(pkg=".", entry="VerifC20Install", bounds="maxchanges=2", no_native=True, reach=["installed"]),
+            # real Servers over the REAL etcd/raft and an in-memory gRPC transport
+            dict(pkg=".", entry="VerifC20Raft", bounds="members=2,leadercrash=1", unwind=4000, no_native=True, reach=["joined", "restarted", "end"]),
+            dict(pkg=".", entry="VerifC20Raft", bounds="members=3,leadercrash=1,compact=1", unwind=4000, no_native=True, reach=["joined", "restarted", "end"]),
+            dict(pkg=".", entry="VerifC20Raft", bounds="members=3,faults=1,removal=0", unwind=4000, no_native=True, reach=["joined", "restarted", "end"]),
         ],
         "thorough": [
             dict(pkg=".", entry="VerifC20Cluster", bounds="members=3", no_native=True, reach=["joined", "restarted", "end"]),
@@ -422,7 +434,7 @@ PROPS["C20"] = dict(
             dict(pkg=".", entry="VerifC20Install", bounds="maxchanges=3", no_native=True, reach=["installed"]),
         ],
     },
-    outside="clusters of 5 members; elections, leader changes and loss/reordering of raft messages between members (etcd/raft's: the model hands every member the same committed log, a snapshot first when the leader compacted past it); more than one restart per history in the cluster harness; concurrent joins; restarts in the middle of a Ready (C03/C06)",
+    outside="clusters of more than 3 members (4 in one thorough run of the shared-log harness); in the real-raft harness: more than one message fault, one leader stop and one restart per history, fault positions other than every raft message (loss with/without error, duplication) and 'the leader stops right after it acknowledged a join', goroutine schedules other than the deterministic one between harness-driven ticks, concurrent joins, address changes on re-join; in the shared-log harness etcd/raft is replaced by one committed log; restarts in the middle of a Ready (C03/C06)",
     assumptions=COMMON_ASSUME + ["etcd/raft is a harness: the members' zero groups share one committed log; every proposal commits at once and is handed to every live member of the configuration in order (the leader's stored snapshot first when the member's next entry was compacted away); a (re)started member gets its own stored entries re-delivered after its own snapshot; StartNode appends the bootstrap membership entry with the peer Context anndb passed",
                                  "gRPC is an in-memory transport: dialling :<port> reaches the Server listening there, the AddNode stream is served by the real handler and can break before any message; net.Listen, grpc.NewServer and service registration are stubs; Badger is the API-level model with contents shared per Dir"],
     no_native_replay=True,
